@@ -467,6 +467,12 @@ func (p *Prog) own() *ownAnalysis {
 								if f == nil {
 									continue
 								}
+								// code outside the repository that is not known to be read-only may write through the reference
+								if (callee.Blocks == nil || !p.isRepoFunc(callee)) && o.origin(unwrap(a)).kind == oRef && !readOnlyExternal(calleeName(callee)) && mutableRefType(unwrap(a).Type()) {
+									if set(o.mutates, f, i, "passed to "+calleeName(callee)+" outside the repository, which is not known to be read-only") {
+										changed = true
+									}
+								}
 								if why, ok := o.mutates[callee][ai]; ok {
 									if set(o.mutates, f, i, "passed to "+calleeName(callee)+" which mutates it ("+why+")") {
 										changed = true
@@ -534,6 +540,18 @@ func (o *ownAnalysis) holderMutates(t types.Type) bool {
 				return true
 			}
 		}
+	}
+	return false
+}
+
+// mutableRefType: slices, maps and pointers to non-opaque data (not functions, channels, interfaces or strings).
+func mutableRefType(t types.Type) bool {
+	switch u := t.Underlying().(type) {
+	case *types.Slice, *types.Map:
+		return true
+	case *types.Pointer:
+		_ = u
+		return true
 	}
 	return false
 }
